@@ -412,7 +412,18 @@ def prefix_sorted(ctx, res):
     repo = get_pyrepo(ctx)
     mod = repo.module(HT)
     n = 0
-    for qual, fn in mod.functions.items():
+    called_ = {c.func.id for c in ast.walk(mod.tree) if isinstance(c, ast.Call)
+               and isinstance(c.func, ast.Name)}
+    for qual, fn0 in mod.functions.items():
+        # a private helper that receives the list as a parameter is part of
+        # its callers (analysed with the helper inlined)
+        if "." not in qual and qual.startswith("_") and qual in called_ \
+                and "prefix_list" in {a.arg for a in fn0.args.args}:
+            continue
+        try:
+            fn = repo.inlined(HT, qual)
+        except Exception:
+            fn = fn0
         if not any(isinstance(c, ast.Call) and isinstance(c.func, ast.Attribute)
                    and c.func.attr in ("append", "insert", "extend")
                    and norm(c.func.value) == "prefix_list"
@@ -1248,7 +1259,8 @@ def private_instance_trait(ctx, res):
     if n == 0:
         raise AnalysisError("no store into an instance-trait dictionary found")
     # cloned-set integrity in the metaclass
-    upd = repo.func(HT, "update_traits_class_dict")
+    upd = repo.inlined(HT, "update_traits_class_dict",
+                       keep=("_add_notifiers", "_clone_trait"))
     par = {}
     for p_ in ast.walk(upd):
         for c_ in ast.iter_child_nodes(p_):
